@@ -225,6 +225,93 @@ def exhaustive(tier):
                 for method in ("best", "xor"):
                     for place in ("root", "nested"):
                         yield {"mode": "rejected-cross-offer", "cause": cause, "form": form, "fmt": fmt, "method": method, "place": place}
+    for kind in ("configtype-field", "configtype-item", "list-item", "section"):
+        for inspect_ in ("none", "key-filename", "values", "keyfile-object", "to_tree", "dumps"):
+            for fmt in ("json", "pickle"):
+                for method in ("best", "xor"):
+                    yield {"mode": "inspected-then-attached", "kind": kind, "inspect": inspect_, "fmt": fmt, "method": method}
+
+
+def _inspected_then_attached_case(case, R):
+    """A free-standing configuration (a config-type instance, a list item built on its own, a section built from its sub-schema)
+    is looked at - its documented key-file attribute read, its values read - and THEN attached under a root that names key
+    file K: it uses K like every other descendant, and the default key file is neither created nor used."""
+    cc = sandbox._state["cc"]
+    kind, inspect_, fmt, method = case["kind"], case["inspect"], case["fmt"], case["method"]
+    R.label("inspected-then-attached", "attached:" + kind)
+    R.nontrivial = inspect_ != "none"
+    part = cc.Schema()
+    part.name = cc.StringField(default="n")
+    part.token = cc.SecureField(method=method)
+    part.deep.pin = cc.SecureField(method=method)
+    T = cc.make_type(part, "AttachedPart", module=__name__)
+    schema = cc.Schema()
+    schema.label = cc.StringField(default="l")
+    schema.one = T
+    schema.rows = cc.ListField(part)
+    schema.trows = cc.ListField(T)
+    schema.sect = part
+    with sandbox.CaseDir() as d:
+        default_key = sandbox.default_key_path()
+        if os.path.exists(default_key):
+            os.unlink(default_key)
+        k = os.path.join(d, "k.key")
+        loose = T() if kind in ("configtype-field", "configtype-item") else part()
+        loose.token = "token-plaintext-1"
+        loose.deep.pin = "pin-plaintext-2"
+        if inspect_ == "key-filename":
+            _ = loose._key_filename
+            _ = loose.deep._key_filename
+        elif inspect_ == "values":
+            _ = (loose.token, loose.deep.pin, loose.to_tree() if False else None)
+        elif inspect_ == "keyfile-object":
+            _ = loose._keyfile
+        elif inspect_ == "to_tree":
+            _ = loose.to_tree()            # (encrypts under the default key file - rightly so, it has no ancestor yet)
+        elif inspect_ == "dumps":
+            _ = loose.dumps("json")
+        if os.path.exists(default_key):
+            os.unlink(default_key)
+        root = schema(key_filename=k)
+        try:
+            if kind == "configtype-field":
+                root.one = loose
+                read = lambda c: (c.one.token, c.one.deep.pin)
+            elif kind == "configtype-item":
+                root.trows = [loose]
+                read = lambda c: (c.trows[0].token, c.trows[0].deep.pin)
+            elif kind == "list-item":
+                root.rows.append(loose) if root.rows is not None else setattr(root, "rows", [loose])
+                read = lambda c: (c.rows[0].token, c.rows[0].deep.pin)
+            else:
+                root.sect = loose
+                read = lambda c: (c.sect.token, c.sect.deep.pin)
+        except Exception:
+            R.label("attached:rejected")
+            return
+        names = (loose._key_filename, loose.deep._key_filename)
+        R.check(names == (k, k), "key-use", "attached:resolves:" + kind,
+                lambda: "a %s (%s before it was attached) under a root with key file k.key resolves its key file to %r" % (kind, inspect_, names))
+        dest = os.path.join(d, "attached." + fmt)
+        try:
+            root.save(dest, fmt)
+        except Exception as exc:
+            R.fail("reload", "attached:save-raises", "save raised %r" % (exc,))
+            return
+        R.check(not os.path.exists(default_key), "key-use", "attached:default-key-created:" + kind,
+                lambda: "saving a root that names k.key created the default key file (a %s was %s before it was attached)" % (kind, inspect_))
+        try:
+            if os.path.exists(default_key):
+                os.unlink(default_key)
+            fresh = schema(key_filename=k)
+            fresh.load(dest, fmt)
+            got, err = read(fresh), None
+        except Exception as exc:
+            got, err = None, exc
+        R.check(got == ("token-plaintext-1", "pin-plaintext-2"), "reload", "attached:" + kind,
+                lambda: "a %s (%s before it was attached): a new session with k.key loads its secrets as %r (%r)" % (kind, inspect_, got, err))
+        if os.path.exists(default_key):
+            os.unlink(default_key)
 
 
 def _rejected_cross_offer_case(case, R):
@@ -287,6 +374,8 @@ def _rejected_cross_offer_case(case, R):
 
 
 def run_case(case, R):
+    if case.get("mode") == "inspected-then-attached":
+        return _inspected_then_attached_case(case, R)
     if case.get("mode") == "rejected-cross-offer":
         return _rejected_cross_offer_case(case, R)
     cc = sandbox._state["cc"]
